@@ -40,9 +40,38 @@ theorem stripZeros_length (dec : List Nat) : (stripZeros dec).length ≤ dec.len
   have h := length_dropWhile_le (fun x => x == 0) dec.reverse
   simp at h ⊢; omega
 
+/-- What `fracDigits` does after the zero-decimals test: the digit loop, the final
+rounded digit, carry and zero stripping never produce more than `n + 1` digits. -/
+theorem tail_len (n : Nat) (s : α) :
+    (let (dec, frac) := digitLoop n (fract s) []
+     if isZero frac then (dec, truncAbs s)
+     else
+       let e := roundAbs (mul10 frac)
+       if e == 10 then
+         let (dec, up) := carry dec
+         (dec, if up then addOne (truncAbs s) else truncAbs s)
+       else if e == 0 then (stripZeros dec, truncAbs s)
+       else (dec ++ [e], truncAbs s)).1.length ≤ n + 1 := by
+  have hl := digitLoop_length (α := α) n (fract s) []
+  generalize digitLoop n (fract s) [] = r at hl
+  obtain ⟨dec, fr⟩ := r
+  simp only [List.length_nil, Nat.zero_add] at hl
+  simp only []
+  split
+  · simp only []; omega
+  · split
+    · have := carry_length dec
+      generalize carry dec = cr at this
+      obtain ⟨d2, up⟩ := cr
+      simp only [] at this ⊢; omega
+    · split
+      · have := stripZeros_length dec
+        simp only []; omega
+      · simp only [List.length_append, List.length_singleton]; omega
+
 /-- The number of fractional digits never exceeds `max 1 (min cap precision)` where
 `cap = 16 - ⌈log10 whole⌉` is the significant-digit cap — for every carrier, with or
-without the precision-0 deviation. -/
+without the zero-decimals deviation. -/
 theorem fmt_frac_len (q : FmtQuirks) (p : Nat) (s : α) :
     (fracDigits q p s).1.length ≤ max 1 (min (16 - log10ceil (truncAbs s)) p) := by
   unfold fracDigits
@@ -51,41 +80,43 @@ theorem fmt_frac_len (q : FmtQuirks) (p : Nat) (s : α) :
   · simp
   · split
     · split <;> simp
-    · have hl := digitLoop_length (α := α) ((min (16 - log10ceil (truncAbs s)) p) - 1) (fract s) []
-      generalize digitLoop ((min (16 - log10ceil (truncAbs s)) p) - 1) (fract s) [] = r at hl
-      obtain ⟨dec, fr⟩ := r
-      simp only [List.length_nil, Nat.zero_add] at hl
-      simp only []
-      split
-      · simp only []; omega
-      · split
-        · have := carry_length dec
-          generalize carry dec = cr at this
-          obtain ⟨d2, up⟩ := cr
-          simp only [] at this ⊢; omega
-        · split
-          · have := stripZeros_length dec
-            simp only []; omega
-          · simp only [List.length_append, List.length_singleton]; omega
+    · have := tail_len (α := α) (min (16 - log10ceil (truncAbs s)) p - 1) s
+      simp only [] at this
+      omega
 
-/-- With the precision-0 deviation repaired, at most `precision` fractional digits are
-printed whenever the significant-digit cap leaves room for at least one. -/
-theorem spec_frac_len_le_precision (p : Nat) (s : α)
-    (hcap : 1 ≤ 16 - log10ceil (truncAbs s)) :
+/-- FULL STATEMENT (specification model, deviation repaired): at most `precision`
+fractional digits, and at most `cap` so that no more than 16 significant digits are
+printed — for every carrier and every input. -/
+theorem spec_frac_len (p : Nat) (s : α) :
+    (fracDigits fmtSpec p s).1.length ≤ min (16 - log10ceil (truncAbs s)) p := by
+  unfold fracDigits
+  simp only [fmtSpec]
+  split
+  · simp
+  · by_cases h0 : min (16 - log10ceil (truncAbs s)) p = 0
+    · simp [h0]; split <;> simp
+    · have h1 : ¬ ((min (16 - log10ceil (truncAbs s)) p == 0) = true ∧ (!false) = true) := by
+        simp; omega
+      simp only [h1, if_false]
+      have := tail_len (α := α) (min (16 - log10ceil (truncAbs s)) p - 1) s
+      simp only [] at this
+      omega
+
+theorem spec_frac_len_le_precision (p : Nat) (s : α) :
     (fracDigits fmtSpec p s).1.length ≤ p := by
-  by_cases hp : p = 0
-  · subst hp
-    unfold fracDigits
-    simp only [fmtSpec]
-    split
-    · simp
-    · simp; split <;> simp
-  · have := fmt_frac_len (α := α) fmtSpec p s
-    omega
+  have := spec_frac_len (α := α) p s; omega
 
-/-- Refutation of the full statement for the code as it is: at precision 0 a fractional
-digit is still printed (witness over an abstract carrier is impossible, so the statement
-is: the as-is model takes the digit branch at precision 0 exactly as at precision 1). -/
+/-- PARTIAL (code as it is): the same bound under the explicit hypothesis that excludes
+the deviation, i.e. at least one decimal is allowed. -/
+theorem asis_frac_len_partial (p : Nat) (s : α)
+    (h : 1 ≤ min (16 - log10ceil (truncAbs s)) p) :
+    (fracDigits fmtAsIs p s).1.length ≤ min (16 - log10ceil (truncAbs s)) p := by
+  have := fmt_frac_len (α := α) fmtAsIs p s
+  omega
+
+/-- The code as it is treats precision 0 exactly like precision 1 (the deviation of
+known finding C10-precision0; the concrete witness 0.5 ↦ "0.5" is replayed on the real
+code by every run of the check). -/
 theorem asis_precision0_eq_precision1 (s : α) :
     fracDigits fmtAsIs 0 s = fracDigits fmtAsIs 1 s := by
   have h : ∀ m : Nat, min m 1 - 1 = 0 := by intro m; omega
